@@ -25,23 +25,37 @@ static const char* OPN[3] = {"+", "-", "^"};
 
 struct Leaf {
   std::string name;
-  Manifold m;
+  Manifold m;     // evaluated (forced) leaf
   Soup soup;
+  std::function<Manifold()> lazy;  // the same solid as a fresh handle whose transform is still pending
 };
 static std::vector<Leaf> makeLeaves() {
   std::vector<std::pair<std::string, Manifold>> shapes;
-  shapes.push_back({"tet", Manifold::Tetrahedron().Rotate(17, 31, 47).Translate({0.1, 0.05, -0.1})});
-  shapes.push_back({"cube", Manifold::Cube({1.3, 1.1, 0.9}, true).Rotate(34, 62, 94).Translate({0.31, 0.17, 0.23})});
-  shapes.push_back({"octa", Manifold::Sphere(0.9, 4).Rotate(51, 93, 141).Translate({-0.2, 0.25, 0.1})});
+  std::vector<std::function<Manifold()>> lazies;
+  {
+    Manifold t = Manifold::Tetrahedron(), cb = Manifold::Cube({1.3, 1.1, 0.9}, true), oc = Manifold::Sphere(0.9, 4);
+    (void)t.NumTri();
+    (void)cb.NumTri();
+    (void)oc.NumTri();
+    lazies.push_back([t] { return t.Rotate(17, 31, 47).Translate({0.1, 0.05, -0.1}); });
+    lazies.push_back([cb] { return cb.Rotate(34, 62, 94).Translate({0.31, 0.17, 0.23}); });
+    lazies.push_back([oc] { return oc.Rotate(51, 93, 141).Translate({-0.2, 0.25, 0.1}); });
+  }
+  shapes.push_back({"tet", lazies[0]()});
+  shapes.push_back({"cube", lazies[1]()});
+  shapes.push_back({"octa", lazies[2]()});
   Polygons L = {{{-0.8, -0.8}, {0.8, -0.8}, {0.8, -0.1}, {0.1, -0.1}, {0.1, 0.8}, {-0.8, 0.8}}};
   shapes.push_back({"L", Manifold::Extrude(L, 1.2).Translate({0, 0, -0.6}).Rotate(68, 124, 188).Translate({0.15, -0.2, 0.3})});
   Polygons ring = {{{-0.9, -0.9}, {0.9, -0.9}, {0.9, 0.9}, {-0.9, 0.9}}, {{-0.4, -0.35}, {-0.4, 0.45}, {0.35, 0.45}, {0.35, -0.35}}};
   shapes.push_back({"ring", Manifold::Extrude(ring, 0.8).Translate({0, 0, -0.4}).Rotate(85, 155, 235).Translate({-0.1, -0.15, -0.2})});
   shapes.push_back({"far", Manifold::Cube({0.8, 0.7, 0.6}).Rotate(10, 20, 30).Translate({6, 0.3, 0.2})});  // bbox-disjoint: Compose fast path
   std::vector<Leaf> out;
-  for (auto& s : shapes) {
+  for (size_t i = 0; i < shapes.size(); ++i) {
+    auto& s = shapes[i];
     (void)s.second.NumTri();
-    out.push_back({s.first, s.second, soupOf(s.second)});
+    Manifold forced = s.second;
+    std::function<Manifold()> lz = i < lazies.size() ? lazies[i] : std::function<Manifold()>([forced] { return forced.Translate({0, 0, 0}); });
+    out.push_back({s.first, s.second, soupOf(s.second), lz});
   }
   return out;
 }
@@ -83,7 +97,8 @@ struct Expr {
 enum Dev { NONE = 0, FORCE_NOW = 1, FORCE_LATER = 2, EXTRA_COPY = 3, DROP_EARLY = 4 };
 static const char* DEVN[5] = {"", "force@creation", "force@next", "extra-copy", "drop-early"};
 
-static Manifold evaluate(const Expr& e, const std::vector<Leaf>& L, const std::vector<int>& dev /* per node */, bool eager) {
+static Manifold evaluate(const Expr& e, const std::vector<Leaf>& L, const std::vector<int>& dev /* per node */, bool eager,
+                         bool lazyLeaves = false, std::vector<std::optional<Manifold>>* nodesOut = nullptr) {
   std::vector<std::optional<Manifold>> h(e.n.size());
   std::vector<Manifold> copies;
   std::vector<int> lastUse(e.n.size(), -1);
@@ -95,7 +110,7 @@ static Manifold evaluate(const Expr& e, const std::vector<Leaf>& L, const std::v
     const Node& x = e.n[i];
     switch (x.kind) {
       case 0:
-        h[i] = L[x.a].m;
+        h[i] = (lazyLeaves && !eager) ? L[x.a].lazy() : L[x.a].m;
         break;
       case 1:
         h[i] = h[x.a]->Boolean(*h[x.b], OPS[x.op]);
@@ -120,6 +135,7 @@ static Manifold evaluate(const Expr& e, const std::vector<Leaf>& L, const std::v
   }
   Manifold root = *h.back();
   (void)root.Status();
+  if (nodesOut) *nodesOut = h;  // handles still alive, to be forced AFTER the root by the caller
   return root;
 }
 
@@ -271,6 +287,22 @@ int main(int argc, char** argv) {
             E.push_back(e);
           }
         }
+  // transformed op nodes nested inside op nodes (collapsing must compose the transforms in the right order):
+  // ((a o1 b).T1 o2 c).T2 o3 d   and   d o3 (c o2 (a o1 b).T2).T1
+  for (int a = 0; a < nl; ++a)
+    for (int b = 0; b < nl; ++b)
+      for (int c = 0; c < nl; ++c)
+        for (int d = 0; d < nl; ++d)
+          for (int o = 0; o < 27; ++o) {
+            if (a == b) continue;
+            if (!thorough && c != d && (a + b + c + d) % 2) continue;  // quick: half of the leaf assignments
+            int o1 = o % 3, o2 = (o / 3) % 3, o3 = o / 9;
+            Expr e;
+            e.n = {leafNode(LF(a)), leafNode(LF(b)), leafNode(LF(c)), leafNode(LF(d)), opNode(o1, 0, 1), xfNode(1, 4), opNode(o2, 5, 2), xfNode(2, 6), opNode(o3, 7, 3)};
+            E.push_back(e);
+            e.n = {leafNode(LF(a)), leafNode(LF(b)), leafNode(LF(c)), leafNode(LF(d)), opNode(o1, 0, 1), xfNode(2, 4), opNode(o2, 2, 5), xfNode(1, 6), opNode(o3, 3, 7)};
+            E.push_back(e);
+          }
   // batches of three leaves / with a nested op, and transform chains
   for (int a = 0; a < nl; ++a)
     for (int b = 0; b < nl; ++b)
@@ -290,21 +322,37 @@ int main(int argc, char** argv) {
     std::string name = e.str(L);
     c.describe(name + " [eager]");
     std::vector<int> none(e.n.size(), NONE);
-    Manifold ref = evaluate(e, L, none, true);
+    std::vector<std::optional<Manifold>> refNodes;
+    Manifold ref = evaluate(e, L, none, true, false, &refNodes);
     std::vector<const Soup*> soups;
     for (auto& nd : e.n)
       if (nd.kind == 0) soups.push_back(&L[nd.a].soup);
     long judged = 0;
-    auto runHist = [&](const std::vector<int>& dev, const std::string& hn) {
+    auto runHist = [&](const std::vector<int>& dev, const std::string& hn0, bool lazyLeaves = false) {
+      std::string hn = hn0 + (lazyLeaves ? ",lazy-leaves" : "");
       c.describe(name + " [" + hn + "]");
-      Manifold got = evaluate(e, L, dev, false);
+      std::vector<std::optional<Manifold>> nodes;
+      Manifold got = evaluate(e, L, dev, false, lazyLeaves, &nodes);
       c.count("transitions");
       std::string why = sameSolid(ref, got, soups, G, judged);
       if (!why.empty()) c.viol("lazy:" + name + " [" + hn + "]", name + " [" + hn + "]", why);
+      // every intermediate handle that is still alive is forced now, AFTER its parent(s): it must denote what
+      // the eager evaluation of that sub-expression denotes
+      for (size_t i = 0; i + 1 < nodes.size() && why.empty(); ++i) {
+        if (!nodes[i] || e.n[i].kind == 0 || !refNodes[i]) continue;
+        c.describe(name + " [" + hn + "] node#" + std::to_string(i) + " forced after the root");
+        std::string w2 = sameSolid(*refNodes[i], *nodes[i], soups, G, judged);
+        c.count("transitions");
+        if (!w2.empty()) {
+          c.viol("lazy:" + name + " [" + hn + "] node#" + std::to_string(i), name + " [" + hn + "]", "sub-expression " + e.str(L, (int)i) + " forced after its parent: " + w2);
+          break;
+        }
+      }
       uint64_t h = canonGeomHash(got.GetMeshGL64());
       if (c.distinct(h) && !got.IsEmpty()) c.nontrivial(h);
     };
     runHist(none, "lazy");
+    runHist(none, "lazy", true);
     auto in = e.internal();
     // one deviation
     for (int i : in)
@@ -386,6 +434,52 @@ int main(int argc, char** argv) {
       if (c.distinct(h) && !l.IsEmpty()) c.nontrivial(h);
       if (!why.empty()) c.viol("rewrite:" + name, name, why);
       if (idx % 211 == 0) c.sample(name);
+    }, {"transitions", "points_judged"});
+  }
+
+  // ---- operands with a PENDING rotation (lazy bounding box drives the compose-instead-of-union shortcut):
+  // elongated, off-centre bars whose rotated box differs strongly from the box of the inverse rotation
+  {
+    struct Bar {
+      std::string name;
+      std::function<Manifold()> lazy;
+    };
+    std::vector<Bar> bars;
+    Manifold base = Manifold::Cube({4, 0.6, 0.5});
+    (void)base.NumTri();
+    Manifold base2 = Manifold::Cube({0.5, 3.5, 0.6}).Translate({0.2, 0.4, -0.1});
+    (void)base2.NumTri();
+    for (int ang : {30, 60, 90, 135})
+      for (int ax = 0; ax < 3; ++ax)
+        for (int which = 0; which < 2; ++which) {
+          Manifold b = which ? base2 : base;
+          bars.push_back({std::string(which ? "barY" : "barX") + ".Rot" + "xyz"[ax] + std::to_string(ang), [b, ang, ax] {
+                            return b.Rotate(ax == 0 ? ang : 0, ax == 1 ? ang : 0, ax == 2 ? ang : 0).Translate({0.1, -0.2, 0.15});
+                          }});
+        }
+    const uint64_t nbars = bars.size();
+    R.phase("lazy-bbox", 6 * nbars * 3, 1, [&](uint64_t idx, Ctx& c) {
+      int op = idx % 3;
+      const Bar& b = bars[(idx / 3) % nbars];
+      const Leaf& a = L[idx / 3 / nbars];
+      std::string name = a.name + OPN[op] + b.name;
+      c.describe(name);
+      Manifold lazyB = b.lazy();
+      Manifold forcedB = b.lazy();
+      (void)forcedB.NumTri();
+      Manifold l = a.m.Boolean(lazyB, OPS[op]), r = a.m.Boolean(forcedB, OPS[op]);
+      Manifold l3 = Manifold::BatchBoolean({a.m, b.lazy(), L[(idx / 3 / nbars + 1) % 4].m}, OPS[op]);
+      Manifold r3 = Manifold::BatchBoolean({a.m, forcedB, L[(idx / 3 / nbars + 1) % 4].m}, OPS[op]);
+      long judged = 0;
+      std::string why = sameSolid(r, l, {&a.soup}, G + 1, judged);
+      if (!why.empty()) c.viol("lazybox:" + name, name, why);
+      std::string why3 = sameSolid(r3, l3, {&a.soup}, G + 1, judged);
+      if (!why3.empty()) c.viol("lazybox3:" + name, name, why3);
+      c.count("transitions", 4);
+      c.count("points_judged", judged);
+      uint64_t h = canonGeomHash(l.GetMeshGL64());
+      if (c.distinct(h) && !l.IsEmpty()) c.nontrivial(h);
+      if (idx % 37 == 0) c.sample(name);
     }, {"transitions", "points_judged"});
   }
   return R.finish();
